@@ -17,12 +17,13 @@ def random_action(cl, rng, w, state):
     ids = [n for n in N if N[n].alive]
     cands = []
     for k in ('tick_z', 'tick_h', 'tick_m', 'tick_j'):
-        if w.get(k, 0) > 0:
+        if w.get(k, 0) > 0 and ids:
             cands.append((w[k], ('Tick', None, k[-1])))
-    chans = [(i, j) for (i, j), q in cl.net.chan.items() if q and N[j].alive]
+    held = getattr(cl, 'script_held', set())
+    chans = [(i, j) for (i, j), q in cl.net.chan.items() if q and N[j].alive and (i, j) not in held]
     if chans and w.get('deliver', 0) > 0:
         cands.append((w['deliver'], ('Deliver',)))
-    if w.get('submit', 0) > 0 and state['ncmd'] < state['maxcmd']:
+    if w.get('submit', 0) > 0 and state['ncmd'] < state['maxcmd'] and ids:
         cands.append((w['submit'], ('Submit',)))
     alive_pairs = [tuple(sorted(p)) for p in cl.net.alive]
     if alive_pairs and w.get('brk', 0) > 0:
@@ -38,13 +39,20 @@ def random_action(cl, rng, w, state):
                     connectable.append((i, j))
         if connectable:
             cands.append((w['connect'], ('Connect',)))
-    if w.get('compact', 0) > 0:
+    if w.get('compact', 0) > 0 and ids:
         cands.append((w['compact'], ('Compact',)))
     startable = [n for n in N if not N[n].alive and N[n].voter]
     if w.get('start', 0) > 0 and startable and ids:
         cands.append((w['start'], ('Start',)))
     if w.get('stop', 0) > 0 and len(ids) > 1:
         cands.append((w['stop'], ('Stop',)))
+    restartable = [n for n in N if not N[n].alive and N[n].generation > 0 and cl.cfg.get('journal')]
+    if w.get('crash', 0) > 0 and ids and cl.cfg.get('journal'):
+        cands.append((w['crash'], ('Crash',)))
+    if w.get('killat', 0) > 0 and ids and cl.cfg.get('journal'):
+        cands.append((w['killat'], ('KillAt',)))
+    if w.get('restart', 0) > 0 and restartable:
+        cands.append((w['restart'], ('Restart',)))
     tot = sum(c[0] for c in cands)
     r = rng.random() * tot
     for wt, a in cands:
@@ -84,6 +92,18 @@ def random_action(cl, rng, w, state):
         return ('Connect',) + rng.choice(sorted(connectable))
     if k == 'Compact':
         return ('Compact', rng.choice(ids))
+    if k == 'Crash':
+        return ('Crash', rng.choice(ids))
+    if k == 'Restart':
+        return ('Restart', rng.choice(sorted(restartable)))
+    if k == 'KillAt':
+        # a step of some node that is killed at its kw-th primitive storage write
+        for _ in range(6):
+            inner = random_action(cl, rng, dict(w, killat=0, crash=0, restart=0, brk=0, connect=0, start=0, stop=0), state)
+            actor = cl._actor(inner)
+            if actor is not None and cl.applicable(inner):
+                return ('KillAt', actor, rng.choice([1, 1, 2, 2, 3, 4, 5, 7]), list(inner))
+        return ('Crash', rng.choice(ids))
     if k == 'Start':
         # operator discipline: a fresh process is given the member list some running voter currently has
         n = rng.choice(sorted(startable))
@@ -146,6 +166,20 @@ def _script(cl, script, rng):
             for m in sorted(cl.nodes):
                 if m != n:
                     out += [('Break', n, m), ('Notice', n, m), ('Notice', m, n)]
+        elif s[0] == 'hold':        # stop delivering from one ordered channel (messages pile up): stale replies later
+            ids = sorted(n for n in cl.nodes if cl.nodes[n].alive)
+            if s[1] == 'toleader':
+                ls = [(sn.obj.raftCurrentTerm, nid) for nid, sn in cl.nodes.items() if sn.alive and sn.obj._isLeader()]
+                if ls:
+                    l = max(ls)[1]
+                    f = rng.choice([x for x in ids if x != l])
+                    cl.script_held = {(f, l)}
+            else:
+                i = rng.choice(ids)
+                j = rng.choice([x for x in ids if x != i])
+                cl.script_held = {(i, j)}
+        elif s[0] == 'release':
+            cl.script_held = set()
         elif s[0] == 'heal':        # (re)connect everything that can be connected
             ids = sorted(cl.nodes)
             for i in ids:
